@@ -310,6 +310,16 @@ func genWrCases(c *Ctx) []json.RawMessage {
 			add(WrCase{Fl: "bytes", Init: in.l, Cap: in.c, IsNil: in.isnil, Shuffle: int64(k), Ops: append([]WrOp(nil), sq...)})
 		}
 	}
+	// adaptive initial size ring (max of the last 10 flushed capacities)
+	for _, nsmall := range []int{8, 9, 10, 11, 12} {
+		ops := []WrOp{{Op: "malloc", N: 20000}, {Op: "flush"}}
+		for i := 0; i < nsmall; i++ {
+			ops = append(ops, WrOp{Op: "wb", N: 10}, WrOp{Op: "flush"})
+		}
+		ops = append(ops, WrOp{Op: "malloc", N: 5000, Lazy: true}, WrOp{Op: "malloc", N: 1})
+		k++
+		add(WrCase{Fl: "io", Shuffle: int64(k), Ops: ops})
+	}
 	rng := rand.New(rand.NewSource(c.Seed*104729 + 5))
 	nrand := c.Pick(1500, 30000)
 	for i := 0; i < nrand; i++ {
